@@ -746,6 +746,7 @@ type Std struct {
 	models       []string
 	modelsStatus int
 	modelsBody   []byte // overrides rendering when non-nil
+	modelsFault  string // fault kind for model-listing requests
 	proxy        Handler
 
 	HealthHits atomic.Int64
@@ -799,8 +800,11 @@ func (s *Std) handle(rec *Record) *Resp {
 	case s.ModelsPath:
 		s.ModelsHits.Add(1)
 		s.mu.Lock()
-		st, body, models := s.modelsStatus, s.modelsBody, s.models
+		st, body, models, mf := s.modelsStatus, s.modelsBody, s.models, s.modelsFault
 		s.mu.Unlock()
+		if mf != "" {
+			return &Resp{Fault: mf, MaxStall: 20 * time.Second}
+		}
 		if st == 0 {
 			st = 200
 		}
@@ -833,6 +837,11 @@ func (s *Std) SetModels(models []string) {
 func (s *Std) SetModelsRaw(status int, body []byte) {
 	s.mu.Lock()
 	s.modelsStatus, s.modelsBody = status, body
+	s.mu.Unlock()
+}
+func (s *Std) SetModelsFault(f string) {
+	s.mu.Lock()
+	s.modelsFault = f
 	s.mu.Unlock()
 }
 func (s *Std) Models() []string {
